@@ -50,6 +50,7 @@ type Profile struct {
 	Unshielded  bool   `json:"unshielded,omitempty"` // C15 known-finding probe: ice v2 stored-field buffer not serialised
 	StatsCalls  bool   `json:"stats_calls,omitempty"` // C15 known-finding probe: index.Writer.Stats() under concurrency
 	Diff        bool   `json:"diff,omitempty"`        // C08: differential comparison with canonical builds
+	SnapReads   bool   `json:"snap_reads,omitempty"`  // fresh Reader + full read + close as one client operation
 
 	PostRun func(r *Run, res *Result) `json:"-"`
 }
@@ -517,6 +518,9 @@ func (r *Run) exec(c *client, op *Op) {
 			return
 		}
 		cont, err := ReadAll(rd, r.idspace)
+		if err == nil && r.p.ExtRead && r.conc {
+			_ = ReadExtRot(rd, c.idx, r.extQueries...) // concurrent searches of every kind on the fresh snapshot
+		}
 		_ = rd.Close()
 		if err != nil {
 			r.fail("reader", "reading a fresh reader failed: "+err.Error())
@@ -728,11 +732,21 @@ func (r *Run) genBatch(c *client) *BatchSpec {
 		if t.Chance(1, 10, "op.nm.update") {
 			kind = OpUpdate
 		}
-		id := fmt.Sprintf("n%04d", b.N) // unique: an insert never meets an update of its id
-		if kind == OpUpdate || b.N%16 == 0 {
-			id = r.idspace[t.Draw(len(r.idspace), "op.id")]
+		// every batch inserts one document under a unique id (it is never
+		// deleted, so its segment stays) and updates one or two documents of
+		// the small id space: older segments keep a live document and carry a
+		// deleted bitmap, so large snapshot files hold many bitmaps
+		b.Ops = []BatchOp{mk(OpInsert, fmt.Sprintf("n%04d", b.N), 0)}
+		_ = kind
+		used := map[string]bool{}
+		for j, n := 0, 1+t.Draw(2, "op.nm.n"); j < n; j++ {
+			id := r.idspace[t.Draw(len(r.idspace), "op.id")]
+			if used[id] {
+				continue
+			}
+			used[id] = true
+			b.Ops = append(b.Ops, mk(OpUpdate, id, len(b.Ops)))
 		}
-		b.Ops = []BatchOp{mk(kind, id, 0)}
 		return b
 	}
 	if t.Chance(3, 10, "op.single") {
@@ -807,6 +821,11 @@ func (r *Run) genOp(c *client) *Op {
 		}
 	}
 	if r.p.History && t.Chance(1, 4, "op.snapread") {
+		return &Op{Kind: "snap-read"}
+	}
+	if r.p.SnapReads && t.Chance(1, 3, "op.snapread") {
+		// several clients take Writer.Reader() in one window: concurrent
+		// searches on one FRESH root snapshot (first use of its caches)
 		return &Op{Kind: "snap-read"}
 	}
 	return &Op{Kind: "batch", Batch: r.genBatch(c)}
@@ -1269,6 +1288,7 @@ func newRun(p *Profile, t *Tape, scratch string) *Run {
 	r.stats.Probes = map[string]int{}
 	r.stats.Faults = map[string]int{}
 	r.root = filepath.Join(scratch, fmt.Sprintf("run-%d", runCounter))
+	_ = os.RemoveAll(r.root) // never start from anything left behind
 	r.dir = filepath.Join(r.root, "d0")
 	return r
 }
